@@ -66,12 +66,17 @@ Definition step (s : state) (o : op) : state :=
       {| base := b; rollup := Some (match rollup s with
                                     | None => materialize (filter (fun x => w <=? tr (b_ts x)) b)
                                     | Some r => merge w r b end) |}
-  (* CLI: the source statement is the materialisation statement WITHOUT a watermark predicate *)
-  | CliIncr => {| base := b; rollup := Some (match rollup s with None => materialize b | Some r => r ++ materialize b end) |}
+  (* CLI: the source statement is the materialisation statement with the bucket-level watermark predicate (> for incremental, >= for merge), no lookback *)
+  | CliIncr =>
+      let W := watermark (rollup s) in
+      {| base := b; rollup := Some (match rollup s with
+                                    | None => materialize (filter (fun x => W <? tr (b_ts x)) b)
+                                    | Some r => incremental W r b end) |}
   | CliMerge =>
-      let w := watermark (rollup s) in
-      {| base := b; rollup := Some (match rollup s with None => materialize b
-                                    | Some r => filter (fun x => r_bucket x <? w) r ++ materialize b end) |}
+      let w := watermark (rollup s) - 0 in
+      {| base := b; rollup := Some (match rollup s with
+                                    | None => materialize (filter (fun x => w <=? tr (b_ts x)) b)
+                                    | Some r => merge w r b end) |}
   end.
 Definition run (h : list op) (s : state) : state := fold_left step h s.
 
